@@ -543,13 +543,24 @@ def case_tightness(prop, seed, cls, Dy, Dx, Da, Dk, eps_list=None, N=1):
             # than its quadratic extrapolation (observed on the unchanged tree: ratios 26 and 88, coefficient gap/eps^2 =
             # 0.09, 0.36, 0.41).  A gap that decays more slowly than quadratically (ratio ~10 or ~1) fails on every pair.
             pairs = [eps for eps in (1e-1, 1e-2) if (eps, n) in gaps and (eps / 10, n) in gaps]
+            # a gap below 1e-7 cannot be resolved (the property grants 1e-7 absolute error to bound and reference alike; observed
+            # on the unchanged tree: gaps of 1.9e-7 and 2.7e-8 at weight scales 1.6e-3 and 1.6e-4): the decay ratio is judged on
+            # the finest pair whose smaller gap is still resolvable
+            FLOOR = 1e-7
+            resolvable = [eps for eps in pairs if np.isnan(gaps[(eps / 10, n)][0]) or gaps[(eps / 10, n)][0] >= FLOOR]
+            judge = resolvable[-1] if resolvable else None
             for eps in pairs:
                 g, qe, ref = gaps[(eps, n)]
                 g10, qe10, _ = gaps[(eps / 10, n)]
-                if g < -(1e-7 + qe) or g10 < -(1e-7 + qe10):
+                if not (np.isfinite(g) and np.isfinite(g10)):
+                    if eps == pairs[-1] or not np.isfinite(g):
+                        fails.append(failure(prop, f"{wood}integrate_log_conditional_y:finite:{cls}", "the returned value (or the gap to the true value) is not finite",
+                                             expected=0.0, got=[g, g10], deviation=[g, g10],
+                                             params=dict(ref.params(), eps=eps, pair=n, gaps={f"{k[0]}/{k[1]}": v[0] for k, v in gaps.items()}, **base)))
+                elif g < -(1e-7 + qe) or g10 < -(1e-7 + qe10):
                     fails.append(failure(prop, f"{wood}integrate_log_conditional_y:bound:{cls}", "bound exceeds the true expectation",
                                          expected=0.0, got=[g, g10], deviation=[-g, -g10], params=dict(ref.params(), eps=eps, pair=n, **base)))
-                elif eps == pairs[-1] and not g10 <= g / 30.0 + 10 * (qe + qe10) + 1e-12:
+                elif eps == judge and not g10 <= g / 30.0 + 10 * (qe + qe10) + 1e-12:
                     fails.append(failure(prop, f"{wood}integrate_log_conditional_y:tightness:{cls}",
                                          "gap to the true value does not decay quadratically: gap(eps/10) > gap(eps)/30 on the finest pair of scales",
                                          expected=g / 30.0, got=g10, deviation=g10 / g if g != 0 else None,
